@@ -12,6 +12,7 @@ use std::cmp::Ordering;
 use std::collections::hash_map::DefaultHasher;
 use std::hash::{Hash, Hasher};
 use std::io::BufRead;
+use std::str::FromStr;
 
 fn col(i: usize) -> Color {
     if i == 0 {
@@ -141,6 +142,55 @@ fn tables(v: &Value, rep: &mut Report) {
         let s = Square::new(q as u8);
         chk!("castle_rights_helpers", format!("rook_square_to_castle_rights({})", s), rights(v["rookfile"][q].as_i64().unwrap()),
              CastleRights::rook_square_to_castle_rights(s));
+    }
+    // names of ranks, files and squares; the constant arrays in index order
+    chk!("names", "NUM_RANKS / NUM_FILES / NUM_SQUARES", (8usize, 8usize, 64usize), (NUM_RANKS, NUM_FILES, NUM_SQUARES));
+    for i in 0..8usize {
+        chk!("names", format!("ALL_RANKS[{}].to_index()", i), i, ALL_RANKS[i].to_index());
+        chk!("names", format!("ALL_FILES[{}].to_index()", i), i, ALL_FILES[i].to_index());
+        let rn = v["ranknames"][i].as_str().unwrap();
+        let fname = v["filenames"][i].as_str().unwrap();
+        chk!("names", format!("Rank::from_str({:?})", rn), Some(i), Rank::from_str(rn).ok().map(|r| r.to_index()));
+        chk!("names", format!("File::from_str({:?})", fname), Some(i), File::from_str(fname).ok().map(|r| r.to_index()));
+    }
+    for t in v["notarank"].as_array().unwrap() {
+        let t = t.as_str().unwrap();
+        chk!("names", format!("Rank::from_str({:?}) is refused", t), true, std::panic::catch_unwind(|| Rank::from_str(t).is_err()).unwrap_or(false));
+    }
+    for t in v["notafile"].as_array().unwrap() {
+        let t = t.as_str().unwrap();
+        chk!("names", format!("File::from_str({:?}) is refused", t), true, std::panic::catch_unwind(|| File::from_str(t).is_err()).unwrap_or(false));
+    }
+    let named: [Square; 64] = [
+        Square::A1, Square::B1, Square::C1, Square::D1, Square::E1, Square::F1, Square::G1, Square::H1,
+        Square::A2, Square::B2, Square::C2, Square::D2, Square::E2, Square::F2, Square::G2, Square::H2,
+        Square::A3, Square::B3, Square::C3, Square::D3, Square::E3, Square::F3, Square::G3, Square::H3,
+        Square::A4, Square::B4, Square::C4, Square::D4, Square::E4, Square::F4, Square::G4, Square::H4,
+        Square::A5, Square::B5, Square::C5, Square::D5, Square::E5, Square::F5, Square::G5, Square::H5,
+        Square::A6, Square::B6, Square::C6, Square::D6, Square::E6, Square::F6, Square::G6, Square::H6,
+        Square::A7, Square::B7, Square::C7, Square::D7, Square::E7, Square::F7, Square::G7, Square::H7,
+        Square::A8, Square::B8, Square::C8, Square::D8, Square::E8, Square::F8, Square::G8, Square::H8,
+    ];
+    for q in 0..64usize {
+        let name = v["sqnames"][q].as_str().unwrap().to_string();
+        chk!("names", format!("ALL_SQUARES[{}]", q), q, ALL_SQUARES[q].to_index());
+        chk!("names", format!("Square constant {}", name.to_uppercase()), q, named[q].to_index());
+        chk!("names", format!("Display of square {}", q), name.clone(), format!("{}", Square::new(q as u8)));
+        chk!("names", format!("Square {} to_int", q), q as u8, Square::new(q as u8).to_int());
+        // BitBoard as text, set(rank, file), from_maybe_square
+        let one = BitBoard::from_square(Square::new(q as u8));
+        chk!("bitboard_text", format!("Display of the bitboard {{{}}}", name), v["bbtext"][q].as_str().unwrap().to_string(), format!("{}", one));
+        chk!("bitboard_misc", format!("BitBoard::set(rank, file) for {}", name), one, BitBoard::set(Rank::from_index(q / 8), File::from_index(q % 8)));
+        chk!("bitboard_misc", format!("from_maybe_square(Some({}))", name), Some(one), BitBoard::from_maybe_square(Some(Square::new(q as u8))));
+        chk!("bitboard_misc", format!("{{{}}}.to_size(0) and to_size(k)", name), ((1u64 << q) as usize, ((1u64 << q) >> (q as u32 / 2)) as usize), (one.to_size(0), one.to_size(q as u8 / 2)));
+    }
+    chk!("bitboard_misc", "from_maybe_square(None)", None::<BitBoard>, BitBoard::from_maybe_square(None));
+    for e in v["bbtextsets"].as_array().unwrap() {
+        let mut bb = EMPTY;
+        for x in e[0].as_array().unwrap() {
+            bb |= BitBoard::from_square(Square::new(x.as_i64().unwrap() as u8));
+        }
+        chk!("bitboard_text", format!("Display of the bitboard {:?}", set_of(&e[0])), e[1].as_str().unwrap().to_string(), format!("{}", bb));
     }
     // Board::default, BoardBuilder::default: the initial position
     {
